@@ -28,6 +28,7 @@ type Program struct {
 	sizes       types.Sizes
 	repo        string
 	contractFiles []string
+	constGlobals  map[*ssa.Global]*ssa.Const // package-level variables that are only initialised, never reassigned
 }
 
 // findContractDirs returns directories under root that contain *_verif.go files.
@@ -185,6 +186,7 @@ func LoadProgram(repo string, specDir string, onlyDirs func(dir string) bool) (*
 			}
 		}
 	}
+	p.findConstGlobals()
 	if err := p.buildSpecPrelude(); err != nil {
 		return nil, err
 	}
@@ -364,4 +366,71 @@ func modulePath(dir string) string {
 		}
 	}
 	return ""
+}
+
+// findConstGlobals finds package-level variables of the loaded packages whose only store is a
+// constant in the package initialiser: their loads are treated as that constant (assumption:
+// users of the framework do not reassign them; listed in the evidence).
+func (p *Program) findConstGlobals() {
+	p.constGlobals = map[*ssa.Global]*ssa.Const{}
+	stores := map[*ssa.Global]int{}
+	initVal := map[*ssa.Global]*ssa.Const{}
+	var visit func(fn *ssa.Function)
+	visit = func(fn *ssa.Function) {
+		for _, b := range fn.Blocks {
+			for _, ins := range b.Instrs {
+				if st, ok := ins.(*ssa.Store); ok {
+					if g, ok := st.Addr.(*ssa.Global); ok {
+						stores[g]++
+						if c, isC := st.Val.(*ssa.Const); isC && fn.Name() == "init" {
+							initVal[g] = c
+						}
+					}
+				}
+				// address taken: could be written through a pointer
+				for _, op := range ins.Operands(nil) {
+					if g, ok := (*op).(*ssa.Global); ok {
+						switch x := ins.(type) {
+						case *ssa.UnOp:
+						case *ssa.Store:
+							if x.Addr != ssa.Value(g) {
+								stores[g] += 2
+							}
+						default:
+							stores[g] += 2
+						}
+					}
+				}
+			}
+		}
+		for _, a := range fn.AnonFuncs {
+			visit(a)
+		}
+	}
+	for _, pk := range p.pkgs {
+		sp := p.ssa.Package(pk.Types)
+		if sp == nil {
+			continue
+		}
+		for _, m := range sp.Members {
+			if fn, ok := m.(*ssa.Function); ok {
+				visit(fn)
+			}
+			if t, ok := m.(*ssa.Type); ok {
+				for _, tt := range []types.Type{t.Type(), types.NewPointer(t.Type())} {
+					ms := p.ssa.MethodSets.MethodSet(tt)
+					for i := 0; i < ms.Len(); i++ {
+						if fn := p.ssa.MethodValue(ms.At(i)); fn != nil && fn.Synthetic == "" {
+							visit(fn)
+						}
+					}
+				}
+			}
+		}
+	}
+	for g, c := range initVal {
+		if stores[g] == 1 {
+			p.constGlobals[g] = c
+		}
+	}
 }
